@@ -246,6 +246,7 @@ def run(model, rep, tier):
                   "never converges" if bad8 else "receive loop not found", stmt="unsigned-intermediate-accepted")
     rep.share(model, "C09", {"R-09.3"}, "R-13.9", "Inbound stores every record through txn.add/replace -> Node._append_rdataset", only=lambda o: o.stmt in ("node-filter", "node-filter-tables", "classify"))
     rep.share(model, "C20", {"R-20.2"}, "R-13.7", "each IXFR step is applied to a writable version cloned from the newest committed version", only=lambda o: o.stmt in ("newest-base", "same-base"))
+    rep.share(model, "C14", {"R-14.5"}, "R-13.6", "a signed transfer may carry unsigned intermediate messages (RFC 8945 5.3.1); the wire reader feeds each of them whole into the running TSIG context, else the next signed message fails BadSignature and the zone never converges")
     rep.share(model, "C12", {"R-12.3"}, "R-13.7", "Inbound opens txn_manager.writer(); a stale admission event blocks every later transfer for ever")
     rep.share(model, "C10", {"R-10.5", "R-10.9", "R-10.15"}, "R-13.5", "IXFR deletions address an rdataset by (name, rdtype, covers); a dropped component leaves stale RRSIGs in the zone")
     rep.meta["explanation"] = (
